@@ -2,18 +2,20 @@
 """Copies a sub-agent's OUT directory (/tmp/mut/<ID>/OUT) into /verif/seeded/<ID>-<n>/ (patch.diff, demo.rs, meta.json)."""
 import json, os, shutil, sys
 pid = sys.argv[1]
-src = f"/tmp/mut/{pid}/OUT"
+base = sys.argv[2] if len(sys.argv) > 2 else "/tmp/mut"      # e.g. /tmp/mut2 for the second round
+offset = int(sys.argv[3]) if len(sys.argv) > 3 else 0       # second round: 2 -> CXX-3, CXX-4
+src = f"{base}/{pid}/OUT"
 metas = json.load(open(os.path.join(src, "meta.json")))
 if isinstance(metas, dict):
     metas = metas.get("changes") or [metas]
 for i, m in enumerate(metas, 1):
     patch = m.get("patch", f"patch_{i}.diff")
     demo = m.get("demo", f"demo_{i}.rs")
-    d = f"/verif/seeded/{pid}-{i}"
+    d = f"/verif/seeded/{pid}-{i + offset}"
     os.makedirs(d, exist_ok=True)
     shutil.copy(os.path.join(src, os.path.basename(patch)), os.path.join(d, "patch.diff"))
     shutil.copy(os.path.join(src, os.path.basename(demo)), os.path.join(d, "demo.rs"))
-    meta = {"property": pid, "source": "independent sub-agent given only the property text and a scratch worktree",
+    meta = {"property": pid, "source": "independent sub-agent given only the property text and a scratch worktree" + (" (second round: also told which changes had been tried, asked for harder ones)" if offset else ""),
             "what_changed": m.get("what_changed"), "needs_to_manifest": m.get("needs_to_manifest"), "agent_commands": m.get("commands_run")}
     json.dump(meta, open(os.path.join(d, "meta.json"), "w"), indent=1)
     print(d)
